@@ -61,6 +61,23 @@ def vec_splice (ovf : Bool) (range : Bd × Bd) (t : Bytes) (s : SB) : SB × Outc
   | .ok r => ((r, r.length), .ok ())
   | _ => (s, .panic)
 
+/-- `char::decode_utf16(units)` (std): a unit outside `D800..=DFFF` is that scalar; a trailing surrogate on its own is an error; a
+leading surrogate needs a trailing one right after it, otherwise it is an error *and the unit after it is looked at again* -/
+def decodeUtf16Fuel : Nat → List Nat → List (Option Char)
+  | 0, _ => []
+  | _, [] => []
+  | f + 1, u :: us =>
+    if !(isSurrogate u) then some (Char.ofNat u) :: decodeUtf16Fuel f us
+    else if u ≥ 0xDC00 then none :: decodeUtf16Fuel f us
+    else
+      match us with
+      | [] => [none]
+      | u2 :: us' =>
+        if !(isLow u2) then none :: decodeUtf16Fuel f us
+        else some (Char.ofNat (((u - 0xD800) * 1024 + (u2 - 0xDC00)) + 0x10000)) :: decodeUtf16Fuel f us'
+
+def decode_utf16 (units : List Nat) : List (Option Char) := decodeUtf16Fuel units.length units
+
 /-- `self.chars().rev().next()`: the last character and its encoded length (`bad`: the text is not UTF-8) -/
 def last_char (s : SB) : SB × Outcome (Option (Char × Nat)) :=
   let t := text s
